@@ -569,6 +569,13 @@ HTPcreate(filerec_t *file_rec, uint16 tag, uint16 ref)
     H4V_ASSUME(new_ddid != FAIL);
     return new_ddid;
 }
+extern int g_getrec_n;
+accrec_t *
+HIget_access_rec(void)
+{
+    g_getrec_n++;
+    return NULL; /* "too many access records": HLcreate beyond its gates is not under contract here */
+}
 /* C13: a record goes back to the free list only when no registered handle designates it */
 void
 HIrelease_accrec_node(accrec_t *acc)
@@ -655,7 +662,6 @@ int32 HLPread(accrec_t *access_rec, int32 length, void *datap)
 int HLconvert(int32 aid, int32 block_length, int32 number_blocks)
     __CPROVER_requires(g_arec != NULL && g_frec != NULL && g_arec->file_id == g_fid && g_frec->refcount >= 1 && g_arec->posn >= 0)
     __CPROVER_requires(g_arec->special == 0 && g_arec->special_info == NULL && g_registered && g_posn0 == g_arec->posn)
-    __CPROVER_requires(number_blocks != 0) /* a block table without blocks is not a table (see HLInewlink_nb0) */
     __CPROVER_requires(g_mut_n == 0 && g_release_n == 0 && g_start_n == 0 && g_end_n == 0 && g_hdr_mask == 0 && g_sub_kind == 0 &&
                        g_sub_failed == 0 && g_htp_failed == 0 && g_newref_n == 0 && g_img_n == 0 && g_j >= 0 && g_j < 16)
     __CPROVER_assigns(__CPROVER_object_whole(g_arec), g_dd_tag, g_dd_ref, g_dd_off, g_dd_len, g_mut_n, g_release_n, g_sub_kind, g_sub_ref,
@@ -665,12 +671,13 @@ int HLconvert(int32 aid, int32 block_length, int32 number_blocks)
                       __CPROVER_object_whole(g_wr_blkref))
     /* C13: the caller's record is never released */
     __CPROVER_ensures(g_release_n == 0)
-    /* bad arguments / C14: a read-only file / an element that is already special: refused before anything is changed */
-    __CPROVER_ensures((aid != g_aid || block_length < 0 || number_blocks < 0 || !(g_frec->access & DFACC_WRITE) || g_is_special) ==>
+    /* bad arguments (a block table without blocks or blocks without bytes cannot hold an element) / C14: a read-only
+       file / an element that is already special: refused before anything is changed */
+    __CPROVER_ensures((aid != g_aid || block_length <= 0 || number_blocks <= 0 || !(g_frec->access & DFACC_WRITE) || g_is_special) ==>
                       (__CPROVER_return_value == FAIL && g_mut_n == 0 && g_start_n == 0 && g_arec->special == 0))
     __CPROVER_ensures(__CPROVER_return_value == SUCCEED || __CPROVER_return_value == FAIL)
     __CPROVER_ensures((g_sub_failed || g_htp_failed) ==> __CPROVER_return_value == FAIL)
-    __CPROVER_ensures((aid == g_aid && block_length >= 0 && number_blocks > 0 && (g_frec->access & DFACC_WRITE) && !g_is_special &&
+    __CPROVER_ensures((aid == g_aid && block_length > 0 && number_blocks > 0 && (g_frec->access & DFACC_WRITE) && !g_is_special &&
                        !g_sub_failed && !g_htp_failed) ==> __CPROVER_return_value == SUCCEED)
     /* C01: the converted element has the same length and position; the old data is its first block */
     __CPROVER_ensures(__CPROVER_return_value == SUCCEED ==>
@@ -685,6 +692,18 @@ int HLconvert(int32 aid, int32 block_length, int32 number_blocks)
     __CPROVER_ensures(__CPROVER_return_value == SUCCEED ==>
                       (g_img_n == 1 && g_img_ref[0] == CONV_INFO->link_ref && g_img[0][0] == 0 &&
                        g_img[0][1] == CONV_INFO->link->block_list[0].ref));
+
+/* C01/C02/C14: HLcreate argument and write-access gate -- a request that cannot yield a well-formed linked-block element
+   (no blocks per table, no bytes per block, special tag, bad file id) or that goes to a read-only file is refused before
+   anything is created: no access record taken, no DD touched, no ref consumed, nothing written */
+int g_getrec_n;
+#define HLC_REFUSED (file_id != g_fid || block_length <= 0 || number_blocks <= 0 || SPECIALTAG(tag) || !(g_frec->access & DFACC_WRITE))
+int32 HLcreate(int32 file_id, uint16 tag, uint16 ref, int32 block_length, int32 number_blocks)
+    __CPROVER_requires(g_frec != NULL && g_frec->refcount >= 1 && g_getrec_n == 0 && g_mut_n == 0 && g_start_n == 0 && g_newref_n == 0 &&
+                       g_release_n == 0)
+    __CPROVER_assigns(g_getrec_n, g_mut_n, g_start_n, g_newref_n, g_release_n)
+    __CPROVER_ensures(HLC_REFUSED ==> (__CPROVER_return_value == FAIL && g_getrec_n == 0 && g_mut_n == 0 && g_start_n == 0 &&
+                                       g_newref_n == 0 && g_release_n == 0));
 
 /* C02: HLgetdatainfo -- raw (offset, length) of the data blocks, never more entries than the caller's arrays hold */
 int      g_exp_total;              /* number of data blocks of the element (leading non-zero refs of each table) */
@@ -968,7 +987,11 @@ h_HLPread(void)
 #if H4V_CASE == 2
     H4V_COVER(r != FAIL && g_zero_n >= 1 && g_brd_n >= 1, "HLPread across a hole");
 #endif
+#if H4V_CASE <= 2 /* at or after the end (cases 3, 4) nothing is read, so no sub-access can fail */
     H4V_COVER(r == FAIL && g_sub_failed, "HLPread fault");
+#else
+    H4V_COVER(r == 0, "HLPread at/after the end returns 0");
+#endif
     H4V_CANARY("HLPread end");
 }
 
@@ -997,10 +1020,12 @@ h_HLconvert(void)
     H4V_ASSUME(BASETAG(g_dd_tag) == g_dd_tag && MKSPECIALTAG(g_dd_tag) != DFTAG_NULL); /* an ordinary element */
     H4V_ASSUME((g_dd_off == INVALID_OFFSET && g_dd_len == INVALID_LENGTH) || (g_dd_off >= 0 && g_dd_len >= 0));
 #if H4V_CASE == 1 /* the conversion has to succeed */
-    H4V_ASSUME(aid == g_aid && block_length >= 0 && number_blocks > 0 && (g_frec->access & DFACC_WRITE) && !g_is_special);
+    H4V_ASSUME(aid == g_aid && block_length > 0 && number_blocks > 0 && (g_frec->access & DFACC_WRITE) && !g_is_special);
     g_sub_may_fail = g_htp_may_fail = 0;
 #elif H4V_CASE == 2 /* C14 gate: read-only file */
     H4V_ASSUME(aid == g_aid && !(g_frec->access & DFACC_WRITE));
+#elif H4V_CASE == 3 /* argument gate: no blocks per table or no bytes per block */
+    H4V_ASSUME(aid == g_aid && (g_frec->access & DFACC_WRITE) && !g_is_special && (block_length <= 0 || number_blocks <= 0));
 #endif
     int r = HLconvert(aid, block_length, number_blocks);
 #if H4V_CASE == 1
@@ -1166,21 +1191,8 @@ h_HLPwrite(void)
 }
 
 /* ---------------------------------------------------------------- HLInewlink */
-/* number_blocks == 0 is accepted by HLcreate/HLconvert (only negative values are refused): memory safety only */
-void
-h_HLInewlink_nb0(void)
-{
-    mk_recs();
-    H4V_ND(uint16, first_block_ref);
-    g_info->number_blocks = 0;
-    g_frec->access |= DFACC_WRITE;
-    g_sub_may_fail = g_htp_may_fail = g_is_special = 0;
-    uint16  lref = Htagnewref(g_fid, DFTAG_LINKED);
-    link_t *l    = HLInewlink(g_fid, 0, lref, first_block_ref);
-    H4V_COVER(l != NULL, "HLInewlink nb0 returned a table");
-    H4V_CANARY("HLInewlink nb0 end");
-}
-
+/* (HLInewlink with number_blocks == 0 overran the table; HLcreate/HLconvert now refuse such requests: see the gate
+   obligations HLcreate_gate / HLconvert_c3) */
 void
 h_HLInewlink(void)
 {
@@ -1200,3 +1212,23 @@ h_HLInewlink(void)
     H4V_CANARY("HLInewlink end");
 }
 
+
+/* ---------------------------------------------------------------- HLcreate: argument / write-access gate */
+void
+h_HLcreate_gate(void)
+{
+    mk_recs();
+    g_sub_may_fail = g_htp_may_fail = g_is_special = 0;
+    g_getrec_n = 0;
+    H4V_ND(int32, file_id);
+    H4V_ND(uint16, tag);
+    H4V_ND(uint16, ref);
+    H4V_ND(int32, block_length);
+    H4V_ND(int32, number_blocks);
+    /* region: requests the gate has to refuse (the rest of HLcreate is not under contract in this unit) */
+    H4V_ASSUME(file_id != g_fid || block_length <= 0 || number_blocks <= 0 || SPECIALTAG(tag) || !(g_frec->access & DFACC_WRITE));
+    int32 r = HLcreate(file_id, tag, ref, block_length, number_blocks);
+    H4V_COVER(r == FAIL && file_id == g_fid && number_blocks == 0, "HLcreate refused number_blocks == 0");
+    H4V_COVER(r == FAIL && file_id == g_fid && block_length > 0 && number_blocks > 0 && !SPECIALTAG(tag), "HLcreate refused a read-only file");
+    H4V_CANARY("HLcreate gate end");
+}
